@@ -103,7 +103,7 @@ Proof.
 Qed.
 
 (* ---- schemas, values, encoding and typed decoding ---- *)
-Inductive leafkind := LInt (ty : N) | LBool | LNull | LOid | LBits.
+Inductive leafkind := LInt (ty : N) | LBool | LNull | LOid | LBits | LInteger | LUnsigned.
 Inductive schema := SLeaf (t : tag) (k : leafkind) | SSeq (t : tag) (fields : list schema).
 Inductive sval := VInt (v : Z) | VBool (b : bool) | VNull | VSeq (vs : list sval) | VOpt (o : option sval)
   | VBytes (c : list N) | VBits (unused : N) (bits : list N).
@@ -115,6 +115,9 @@ Definition lop (k : leafkind) (m : mode) : M sval :=
   | LNull => to_null ;;; ret VNull
   | LOid => c <- oid_from_prim ;; ret (VBytes c)
   | LBits => v <- bit_from_prim m ;; ret (VBits (fst v) (snd v))
+  (* Integer::take_from / Unsigned::take_from: arbitrary-size integers, the value is its content octets *)
+  | LInteger => c <- integer_from_primitive ;; ret (VBytes c)
+  | LUnsigned => c <- unsigned_int_from_primitive ;; ret (VBytes c)
   end.
 Definition lenc (k : leafkind) (v : sval) : option (list N) :=
   match k, v with
@@ -124,6 +127,8 @@ Definition lenc (k : leafkind) (v : sval) : option (list N) :=
   | LOid, VBytes c => if octets_ok c && oid_ok c then Some c else None
   (* BIT STRING values of at most 999 data octets (the primitive form every mode accepts) *)
   | LBits, VBits u c => if (u <=? 7) && negb ((len c =? 0) && (0 <? u)) && (len (u :: c) <=? 1000) then Some (u :: c) else None
+  | LInteger, VBytes c => if octets_ok c && minimal c then Some c else None
+  | LUnsigned, VBytes c => if octets_ok c && (minimal c && nonneg_head c) then Some c else None
   | _, _ => None
   end.
 
@@ -218,7 +223,7 @@ Qed.
 
 Lemma leaf_law k m v c : lenc k v = Some c -> prim_decode (lop k m) c = Ok v.
 Proof.
-  destruct k as [ty| | | |], v as [x|b| |vs|o|cc|u bs]; cbn [lenc lop]; try discriminate.
+  destruct k as [ty| | | | | |], v as [x|b| |vs|o|cc|u bs]; cbn [lenc lop]; try discriminate.
   - destruct ((ty <? 10) && in_range (ty_signed ty) (ty_width ty) x) eqn:E; [|discriminate]. intros [= <-].
     apply andb_prop in E as [E1 E2]. rewrite prim_decode_map, (int_roundtrip ty x ltac:(lia) E2). reflexivity.
   - intros [= <-]. rewrite prim_decode_map, bool_roundtrip. reflexivity.
@@ -230,6 +235,10 @@ Proof.
     rewrite (prim_decode_map (bit_from_prim m) (fun v => VBits (fst v) (snd v))), bit_from_prim_spec. unfold bit_decode_spec.
     replace (1000 <? len (u :: bs)) with false by lia. rewrite andb_false_r. replace (7 <? u) with false by lia.
     apply negb_true_iff in E2. rewrite E2. reflexivity.
+  - destruct (octets_ok cc && minimal cc) eqn:E; [|discriminate]. intros [= <-]. apply andb_prop in E as [E1 E2].
+    rewrite prim_decode_map, (integer_from_prim_spec cc E1), E2. reflexivity.
+  - destruct (octets_ok cc && (minimal cc && nonneg_head cc)) eqn:E; [|discriminate]. intros [= <-]. apply andb_prop in E as [E1 E2].
+    rewrite prim_decode_map, (unsigned_int_from_prim_spec cc E1), E2. reflexivity.
 Qed.
 Lemma Win_lop k m : Win (lop k m).
 Proof.
@@ -239,6 +248,10 @@ Proof.
   - apply Win_bind; [apply Win_to_null|]. intro. apply Win_ret.
   - apply Win_bind; [|intro; apply Win_ret]. unfold oid_from_prim. apply Win_bind; [apply Win_take_all|]. intro c. destruct (oid_check_content c); win_auto.
   - apply Win_bind; [|intro; apply Win_ret]. unfold bit_from_prim. win_auto.
+  - apply Win_bind; [|intro; apply Win_ret]. unfold integer_from_primitive. apply Win_bind; [apply Win_take_all|].
+    intros [|b0 [|b1 r]]; win_auto.
+  - apply Win_bind; [|intro; apply Win_ret]. unfold unsigned_int_from_primitive. apply Win_bind; [apply Win_uns_check_head|].
+    intro. unfold integer_from_primitive. apply Win_bind; [apply Win_take_all|]. intros [|b0 [|b1 r]]; win_auto.
 Qed.
 Lemma St_lop k m z : Safe (St true z) (lop k m) (fun _ => St true z).
 Proof.
@@ -257,6 +270,10 @@ Proof.
     eapply Safe_bind; [apply (St_take_u8 true z)|]. intro u. apply Safe_if; [apply Safe_cerr|].
     eapply Safe_bind; [apply St_remaining|]. intro r2. apply Safe_if; [apply Safe_cerr|].
     eapply Safe_bind; [apply St_take_all|]. intro. apply Safe_ret; auto.
+  - eapply Safe_bind with (Q := fun _ => St true z); [|intro; apply Safe_ret; auto]. apply St_integer_from_primitive.
+  - eapply Safe_bind with (Q := fun _ => St true z); [|intro; apply Safe_ret; auto].
+    unfold unsigned_int_from_primitive. eapply Safe_bind; [apply St_uns_check_head|]. intro.
+    eapply Safe_conseq; [apply St_integer_from_primitive|apply VZ_St|auto].
 Qed.
 
 (* ---- the composition theorem ---- *)
